@@ -95,7 +95,10 @@ class ScopeLifeDriver:
         if name == "Enter":
             self.entered_called = True
             # the scope is ALSO given a B explicitly: what the disposables yield comes after it and wins
-            w.do("1", "ascope", 1, [("A", 2), ("B", 9)], list(self.disps) if self.disps else None, None)
+            # (the scope object is made first and kept, so that it can be tried again after the block was left)
+            w.do("1", "prepare", "ascope", 1, [("A", 2), ("B", 9)], "s1",
+                 dict(disposables=list(self.disps) if self.disps else None))
+            w.do("1", "enterprep")
         elif name == "ReleaseEnter":
             w.release(f"de:d{args[0]}", args[1])
         elif name == "ReleaseExit":
@@ -116,6 +119,8 @@ class ScopeLifeDriver:
                 o = self._obs()
                 o["late"] = "the task was not about to wake when it was cancelled"
                 return o
+        elif name == "ReEnter":
+            w.do("1", "reenter")
         elif name == "Cancel":
             w.cancel("1")
         else:
@@ -150,6 +155,8 @@ def gen_trace(rnd, nd=4, nc=3):
         for _ in range(40):
             ph = o["ph"]
             if ph == "post" or ph == "pre":
+                if ph == "post":
+                    o = log("ReEnter", [])      # the same scope object is tried once more: refused, nothing changes
                 break
             ch = []
             for i, dd in enumerate(d.disps, 1):
@@ -185,7 +192,7 @@ TRACE_KW = dict(
     constants=dict(ND=4, NC=3, Behaviours='{"ok", "fail", "susp"}', Bug='"none"'),
     config_vars=["cfg", "esp"],
     actions=dict(Enter=0, ReleaseEnter=2, ReleaseExit=2, Leave=1, Spawn=1, ChildEnd=1, ChildFail=1, Cancel=0,
-                 ReleaseEnterLate=2, ReleaseExitLate=2, ChildEndLate=1),
+                 ReleaseEnterLate=2, ReleaseExitLate=2, ChildEndLate=1, ReEnter=0),
     invariants=["Restored", "BodyExcIdentity", "EnterOnce", "ExitOnce", "ExitArg", "EnterFailureNoBody", "SurfaceCleanup",
                 "CancelNotLost", "CancelAbortsMembers", "NoWaitAfterFailure", "DisposableStateVisible"])
 
